@@ -18,7 +18,7 @@ Each arm of `to_py` becomes   Arm(variants, guard, pieces)   where pieces is a l
                other    info = {src}
 """
 import re
-from .common import walk, src, strip, format_args_of, norm_template, template_holes, AnchorError, pat_alternatives, tail_expr
+from .common import walk, src, strip, format_args_of, norm_template, template_holes, AnchorError, pat_alternatives, tail_expr, option_match_as_iflet
 
 
 class Arm:
@@ -154,6 +154,8 @@ class PrinterModel:
         e0 = e
         e = strip(e)
         k = e.get("k")
+        if (k == "if" and e["c"].get("k") == "let") or (k == "match" and option_match_as_iflet(e) is not None):
+            return self._pieces_of_expr(e, fields, locals_)
         if k == "lit" and e.get("t") == "str":
             return [("lit", e["v"])]
         if k == "call" and e["f"].get("k") == "path":
@@ -292,6 +294,8 @@ class PrinterModel:
         e1 = strip(e)
         if e1.get("k") == "block":
             return self._pieces_of(e1, fields, locals_)
+        if e1.get("k") == "match" and option_match_as_iflet(e1) is not None:
+            e1 = option_match_as_iflet(e1)
         if e1.get("k") == "if" and e1["c"].get("k") == "let":
             # if let Some(x) = field { .. } else { .. }
             c = e1["c"]
@@ -447,26 +451,46 @@ class PrinterModel:
         return {k: v for k, v in table.items() if v is not None}
 
     def _operand_rule(self):
-        """shape of `operand`: 'plain' = protect(child, required(parent, side)); 'chain' = same-level right operands are printed
-        bare first, then plain. Anything else leaves the fragment."""
+        """decision table of `operand` over (side, chain level of the parent, chain level of the child): 'plain' = always
+        protect(child, required(parent, side)); 'chain' = a right operand whose chain level is that of its parent (and is one) is printed
+        bare, everything else is protected.  The function is folded over the 27 combinations (rules/smalleval.py), so any spelling of
+        the same decision is accepted; any other decision leaves the modelled fragment and names the combination."""
+        from .smalleval import SmallEval, NoEval
         fns = self.syn.find_fn("operand", mod="generate::ast")
         if len(fns) != 1:
             return None
-        stmts = fns[0]["body"]["stmts"]
-        tail = src(strip(stmts[-1]["e"])).replace(" ", "") if stmts and stmts[-1].get("k") == "expr" else ""
-        if tail != "protect(child,required(parent,side),ind)":
-            raise AnchorError(f"`operand` no longer ends in protect(child, required(parent, side), ind): `{tail[:80]}`")
-        if len(stmts) == 1:
+        fn = fns[0]
+        levels = [None, ("Some", 1), ("Some", 2)]
+        table = {}
+        for side in ("Side::Left", "Side::Middle", "Side::Right"):
+            for pl in levels:
+                for cl in levels:
+                    lv = {"parent": pl, "child": cl}
+                    ev = SmallEval(funcs={"chain_level": lambda x, lv=lv: lv[x],
+                                          "to_py": lambda c, i: ("bare", c, i),
+                                          "required": lambda p_, s_: ("required", p_, s_),
+                                          "protect": lambda c, l, i: ("protect", c, l, i)})
+                    try:
+                        names = [inp["pat"]["name"] for inp in fn["sig"]["inputs"]]
+                        if names != ["child", "parent", "side", "ind"]:
+                            raise AnchorError(f"`operand` has parameters {names}")
+                        table[(side, pl, cl)] = ev.call(fn, ["child", "parent", side, "ind"])
+                    except NoEval as ex:
+                        raise AnchorError(f"`operand` left the analysable fragment ({ex})")
+        protect = lambda side: ("protect", "child", ("required", "parent", side), "ind")
+        bare = ("bare", "child", "ind")
+        if all(v == protect(k[0]) for k, v in table.items()):
             return "plain"
-        if len(stmts) == 2 and stmts[0].get("k") == "expr" and strip(stmts[0]["e"]).get("k") == "if":
-            i = strip(stmts[0]["e"])
-            c = src(strip(i["c"])).replace(" ", "")
-            want = "(((side==Side::Right)&&chain_level(parent).is_some())&&(chain_level(parent)==chain_level(child)))"
-            then = src(i["then"]).replace(" ", "")
-            if c == want and then in ("{returnto_py(child,ind);}", "{returnto_py(child,ind)}") and not i.get("else"):
-                return "chain"
-            raise AnchorError(f"`operand`: unrecognised early return `if {c[:120]} {then[:40]}`")
-        raise AnchorError("`operand` left the analysable fragment")
+        dev = []
+        for (side, pl, cl), v in table.items():
+            want = bare if (side == "Side::Right" and pl is not None and pl == cl) else protect(side)
+            if v != want:
+                dev.append(f"side {side.split('::')[-1]}, chain level of the parent {pl[1] if pl else None}, of the child {cl[1] if cl else None}: "
+                           f"{'printed bare' if v == bare else ('protected' if v == protect(side) else str(v)[:60])}")
+        if not dev:
+            return "chain"
+        raise AnchorError(f"`operand` takes a decision that is not modelled ({len(dev)} of 27 cases), e.g. {dev[0]} - expected: bare only for a right operand "
+                          "on the chain level of its parent, protect(child, required(parent, side), ind) otherwise")
 
     def arms_of(self, variant):
         return [a for a in self.arms if variant in a.variants]
